@@ -35,6 +35,8 @@ def gen(ctx):
             c["pre"] = [[rng.choice([-1, 1]) for _ in range(N)] for _ in range(rng.randint(1, 3))]
         if rng.random() < 0.3:
             c["scribble"] = 1
+        if rng.random() < 0.25:
+            c["rival"] = [[rng.choice([-1, 1]) for _ in range(N)] for _ in range(rng.randint(1, 3))]
         yield c
     for N in ([129, 131] if ctx.tier == "quick" else [129, 131, 255, 257, 301]):
         # sizes at which N-1 no longer fits an int8 / the weighted input of a stored pattern is +-(N-1)
@@ -111,6 +113,14 @@ def run(c):
             for p in Parg:
                 for i in range(len(p)):
                     p[i] = -p[i] if i % 2 else p[i]
+        if c.get("rival"):
+            # a second net of the same size, trained on other patterns and run before this one evolves: each net
+            # recalls with ITS OWN weights (its shuffles come from another stream, so the schedule of `net` is unchanged)
+            np.random.shuffle = FakeShuffle(c["seed"] + 17)
+            other = cpl.HopfieldNet(N)
+            other.train(np.array(c["rival"]))
+            cpl.evolve(np.array([[1 if (i * 7 + c["seed"]) % 3 else -1 for i in range(N)]]), timesteps=N + 2, apply_rule=other.apply_rule, r=other.r)
+            np.random.shuffle = fs
         ca = np.array([c["init"]], dtype=c.get("sdtype", "int32"))
         res = cpl.evolve(ca, timesteps=c["T"], apply_rule=net.apply_rule, r=net.r)
         return net, res, fs
